@@ -421,6 +421,17 @@ func c18Enum(yield func(interface{}) bool) {
 		if !c18EnumStrings(al, nOwn, shard, nshards, &idx, func(s string) bool { return yield(&c18Case{Lang: li, Src: []byte(s)}) }) {
 			return
 		}
+		// look-alikes of the quote characters (U+2122, U+0127 and U+0460 end in the bytes of ", ' and `) next to a
+		// comment: a lexer that narrows a rune to a byte before asking "is this a quote" opens a string there
+		ql := []string{"\n", "a", "\u2122", "\u0127", "\u0460", "\""}
+		if d := l.SingleLineCommentStart(); d != "" {
+			ql = append(ql, d)
+		} else if d := l.MultilineCommentStart(); d != "" {
+			ql = append(ql, d, l.MultilineCommentEnd())
+		}
+		if !c18EnumStrings(ql, nOwn, shard, nshards, &idx, func(s string) bool { return yield(&c18Case{Lang: li, Src: []byte(s)}) }) {
+			return
+		}
 	}
 }
 
@@ -440,6 +451,7 @@ func c18Gen(t *rapid.T) interface{} {
 	l := c18AllLangs[li]
 	var sb strings.Builder
 	n := lib.IntN(t, 1, 30, "nlexemes")
+	padded := 0
 	words := []string{"x", "foo", "=", "1", "return", "é", "日本", "(", ")", ";", "*", "/", "-", "%", "#", "{", "}", "<", ">", "!", "@", "[", "]"}
 	// non-ASCII text whose code points have delimiter bytes as their low byte (Cyrillic and CJK prose does that a lot)
 	aliases := []string{"\u042a\u042f", "\u042f\u042a", "\u042d\u042d", "\u0423", "\u043b", "\u4e2a", "\u4e2d", "\u4e3b", "ОБЪЯВЛЕНИЕ"}
@@ -448,12 +460,38 @@ func c18Gen(t *rapid.T) interface{} {
 			aliases = append(aliases, c18Alias(d))
 		}
 	}
+	// ... and runes whose low byte is a quote character
+	aliases = append(aliases, "\u2122", "\u2022", "\u0127", "\u0160", "\u0460", c18Alias("\""), c18Alias("'"))
 	words = append(words, aliases...)
 	// the comment delimiters of the *other* languages: inside a comment or in code of this language they are plain text
 	foreign := []string{"*/", "/*", "%}", "%{", "-->", "<!--", "=end", "=begin", "]]", "#[[", "-}", "{-", "'''", "//", "--", "#", ";", "%", "!", "@REM", "REM"}
 	words = append(words, foreign...)
 	for i := 0; i < n; i++ {
-		switch lib.IntN(t, 0, 6, "lexeme") {
+		switch lib.IntN(t, 0, 7, "lexeme") {
+		case 7: // blanks (or two-byte letters) up to a column where a narrow counter wraps: the next lexeme starts there
+			if padded < 2 && lib.IntN(t, 0, 3, "padNow") == 0 {
+				padded++
+				cur := sb.String()
+				col := utf8.RuneCountInString(cur[strings.LastIndexByte(cur, '\n')+1:])
+				target := []int{256, 65536, 65536, 131072}[lib.IntN(t, 0, 3, "padBoundary")] + lib.IntN(t, -1, 1, "padDelta")
+				if target > col {
+					sb.WriteString(strings.Repeat(lib.PickStr(t, []string{" ", " ", "\u00e9"}, "padRune"), target-col))
+					// what starts at that column: a comment or a (triple-quoted) string whose body looks like a comment
+					op := []string{"'''", `"""`, `"`, "'"}
+					for _, d := range []string{l.SingleLineCommentStart(), l.MultilineCommentStart()} {
+						if d != "" {
+							op = append(op, d)
+						}
+					}
+					o := lib.PickStr(t, op, "padOpener")
+					sb.WriteString(o + " text " + l.SingleLineCommentStart() + " more ")
+					if o == l.MultilineCommentStart() {
+						sb.WriteString(l.MultilineCommentEnd())
+					} else if o != l.SingleLineCommentStart() && lib.IntN(t, 0, 3, "padClose") > 0 {
+						sb.WriteString(o)
+					}
+				}
+			}
 		case 0, 1: // code run
 			for j := 0; j < lib.IntN(t, 1, 5, "ncode"); j++ {
 				sb.WriteString(lib.PickStr(t, words, "code"))
